@@ -537,6 +537,12 @@ def _math_unary(family, pyfn, domain_err=None):
             return x._map(lambda v: f(v))
 
         def el(v):
+            if family == 'log2' and ch.var_of(_bare(v)) is not None and core._pykind(_bare(v)) == 'i':
+                # bit widths / ranges: exact value needed (ceil(log2) is a bit length)
+                vv = _bare(v)
+                if vv >= 1 and vv <= 128:
+                    return math.log2(ch.pick(vv, 1, 129))
+                return math.log2(ch.realize(vv))
             r = unary(family, v, vec=isinstance(x, ndarray) or isinstance(x, (list, tuple)))
             if r is not None:
                 return r
